@@ -29,7 +29,7 @@ REQUIRED = [
     ('a1.public_input.continuous_page_headers.prod', {'guard', 'hash'},
      'page products enter the memory product compared in the OODS equation (pages themselves are rejected by verify_public_input)'),
     ('a1.public_input.', {'hash'}, 'public-input fields seed the transcript through get_hash'),
-    ('a1.unsent_commitment.', {'hash'}, 'prover messages are absorbed into the transcript'),
+    ('a1.unsent_commitment.', {'hash'}, 'prover messages are absorbed into the transcript', 'swiftness_transcript::transcript::Transcript::read_'),
     ('a1.witness.', {'hash'}, 'decommitted values and authentication nodes enter the Merkle hashes'),
 ]
 
@@ -52,6 +52,8 @@ def run(ctx, rep):
             ks = sm.kinds(path)
             kinds = {k[0] for k in ks}
             req = next((r for r in REQUIRED if path.startswith(r[0])), None)
+            if req and len(req) > 3:
+                kinds = {k[0] for k in ks if k[0] not in req[1] or k[1].startswith(req[3])}
             ok = bool(kinds & req[1]) if req else bool(kinds & {'hash', 'guard'})
             where = sorted({f'{k[1].split("::")[-1]}' for k in ks if k[0] in (req[1] if req else ())})[:3]
             rep.ob('C02.flow', f'{lname}|{path}', ok,
